@@ -192,6 +192,51 @@ func runC12(r *Run) {
 			"the flash cookie value is the raw MessagePack encoding (NUL, ';', ',', CR/LF and bytes ≥ 0x80 are possible): e.g. With(\"k\",\"v;x, y\") or a message level of 10 produces a Set-Cookie line that standard parsers drop or split, so the messages do not survive a real HTTP exchange")
 	})
 
+	r.rule("R7", "flash messages and old input never overwrite each other (E1)", func() {
+		f := r.Fn("", "(*Redirect).With")
+		// the in-place override stores into an element of r.messages: reachable only past `!isOldInput`
+		var overrides []ssa.Instruction
+		for _, b := range f.Blocks {
+			for _, in := range b.Instrs {
+				st, ok := in.(*ssa.Store)
+				if !ok {
+					continue
+				}
+				fa, ok := st.Addr.(*ssa.FieldAddr)
+				if !ok {
+					continue
+				}
+				if ia, ok := fa.X.(*ssa.IndexAddr); ok && loadOfField(ia.X, "Redirect.messages") {
+					overrides = append(overrides, in)
+				}
+			}
+		}
+		r.need(len(overrides) >= 1, "With overrides an existing message in place")
+		cut := map[edge]bool{}
+		for _, br := range branchesIn(f) {
+			isOld := false
+			if fv := fieldOfValue(stripValue(br.Info.Root)); fv != nil && fv.Name() == "isOldInput" {
+				isOld = true
+			}
+			if isOld {
+				if s, ok := br.truthSlot(false); ok {
+					cut[edge{br.If.Block(), s}] = true
+				}
+			}
+		}
+		isOv := func(in ssa.Instruction) bool {
+			for _, o := range overrides {
+				if o == in {
+					return true
+				}
+			}
+			return false
+		}
+		_, hit := reach(entryOf(f), isOv, cut, nil)
+		r.check(len(cut) > 0 && hit == nil, "With:overrides-only-flash-entries", r.fpos(f), "an existing entry is overwritten only when it is not old input",
+			"With(key, …) can overwrite an old-input entry that has the same key: WithInput().With(\"name\", …) loses the flash message and corrupts the old input")
+	})
+
 	r.rule("R6", "presence test: decode only when the raw headers mention the cookie; release empties the messages (E1/E4a)", func() {
 		for _, en := range []string{"(*App).defaultRequestHandler", "(*App).customRequestHandler"} {
 			f := r.Fn("", en)
